@@ -115,14 +115,14 @@ Print Assumptions C03_scope_model_implies_spec.
    every generated case by the correspondence (stream closure), (1) holds on all generated fragment programs.  The
    evaluation skeleton (order of evaluation, call protocol) is shared by both sides here; it is C01's subject. *)
 Theorem C03_closure_equiv_partial : forall cfg fuel prog,
-  (forall k, ps_run cfg true fuel prog <> Anomaly k) ->
-  py_run fuel prog = ps_run cfg true fuel prog.
+  (forall k, ps_run cfg true false fuel prog <> Anomaly k) ->
+  py_run fuel prog = ps_run cfg true false fuel prog.
 Proof. exact closure_equiv. Qed.
 Print Assumptions C03_closure_equiv_partial.
 
 Theorem C03_closure_observed_partial : forall cfg fuel prog,
-  (forall k, ps_run cfg true fuel prog <> Anomaly k) ->
-  observe (py_run fuel prog) = observe (ps_run cfg true fuel prog).
+  (forall k, ps_run cfg true false fuel prog <> Anomaly k) ->
+  observe (py_run fuel prog) = observe (ps_run cfg true false fuel prog).
 Proof. exact closure_equiv_observed. Qed.
 Print Assumptions C03_closure_observed_partial.
 
@@ -135,21 +135,21 @@ Print Assumptions C03_closure_locals_bridge.
 
 (* today's code parts from Python at exactly those events (loose run vs reference; witnesses replayed on the real code) *)
 Theorem C03_closure_refuted_D300 :
-  observe (ps_run sdev_off false 50 prog_D300) <> observe (py_run 50 prog_D300) /\ ps_run sdev_off true 50 prog_D300 = Anomaly 1.
+  observe (ps_run sdev_off false false 50 prog_D300) <> observe (py_run 50 prog_D300) /\ ps_run sdev_off true false 50 prog_D300 = Anomaly 1.
 Proof. exact closure_refuted_D300. Qed.
 Print Assumptions C03_closure_refuted_D300.
 Theorem C03_closure_refuted_D301 :
-  observe (ps_run sdev_off false 50 prog_D301) <> observe (py_run 50 prog_D301) /\ ps_run sdev_off true 50 prog_D301 = Anomaly 2.
+  observe (ps_run sdev_off false false 50 prog_D301) <> observe (py_run 50 prog_D301) /\ ps_run sdev_off true false 50 prog_D301 = Anomaly 2.
 Proof. exact closure_refuted_D301. Qed.
 Print Assumptions C03_closure_refuted_D301.
 
 Theorem C03_closure_refuted_D302 :
-  observe (ps_run sdev_off false 50 prog_D302) <> observe (py_run 50 prog_D302) /\ ps_run sdev_off true 50 prog_D302 = Anomaly 4.
+  observe (ps_run sdev_off false false 50 prog_D302) <> observe (py_run 50 prog_D302) /\ ps_run sdev_off true false 50 prog_D302 = Anomaly 4.
 Proof. exact closure_refuted_D302. Qed.
 Print Assumptions C03_closure_refuted_D302.
 
 Theorem C03_closure_refuted_D303 :
-  observe (ps_run sdev_off false 50 prog_D303) <> observe (py_run 50 prog_D303) /\ ps_run sdev_off true 50 prog_D303 = Anomaly 5.
+  observe (ps_run sdev_off false false 50 prog_D303) <> observe (py_run 50 prog_D303) /\ ps_run sdev_off true false 50 prog_D303 = Anomaly 5.
 Proof. exact closure_refuted_D303. Qed.
 Print Assumptions C03_closure_refuted_D303.
 
